@@ -50,9 +50,11 @@ def codegen(overlay_dir, patterns, variant="model", log_path=None, timeout=1800)
             open(log_path, "w").write(p.stdout)
         if p.returncode != 0:
             raise RuntimeError("kani codegen failed (exit %d):\n%s" % (p.returncode, p.stdout[-6000:]))
-        # newest metadata file for the hypercore crate
+        # metadata of *this* overlay's build (several checks may share the cache concurrently): the
+        # harness source paths recorded in the metadata point into the overlay directory
         base = os.path.join(target, "kani/x86_64-unknown-linux-gnu/debug/build/hypercore")
         metas = []
+        stale_dirs = []
         for d in os.listdir(base):
             od = os.path.join(base, d, "out")
             if not os.path.isdir(od):
@@ -60,7 +62,19 @@ def codegen(overlay_dir, patterns, variant="model", log_path=None, timeout=1800)
             for f in os.listdir(od):
                 if f.endswith(".kani-metadata.json"):
                     fp = os.path.join(od, f)
-                    metas.append((os.path.getmtime(fp), fp))
+                    try:
+                        md = json.load(open(fp))
+                    except Exception:
+                        continue
+                    files = [h.get("original_file", "") for h in md.get("proof_harnesses", [])]
+                    if any(x.startswith(overlay_dir + "/") for x in files):
+                        metas.append((os.path.getmtime(fp), fp))
+                    else:
+                        roots = set(x.split("/verif_harness/")[0] for x in files if "/verif_harness/" in x)
+                        if roots and not any(os.path.isdir(r) for r in roots):
+                            stale_dirs.append(os.path.join(base, d))
+        if not metas:
+            raise RuntimeError("kani metadata for this overlay not found")
         metas.sort()
         meta = json.load(open(metas[-1][1]))
         out = []
@@ -75,12 +89,9 @@ def codegen(overlay_dir, patterns, variant="model", log_path=None, timeout=1800)
             shutil.copy(linked, dst)
             out.append(dict(name=short, pretty=h["pretty_name"], mangled=h["mangled_name"],
                             goto=dst, stubs=[s["original"].replace(" ", "") for s in h["attributes"]["stubs"]]))
-        # prune old build dirs of the hypercore crate to bound disk usage
-        keep = os.path.dirname(os.path.dirname(metas[-1][1]))
-        for d in os.listdir(base):
-            full = os.path.join(base, d)
-            if full != keep and os.path.isdir(full):
-                shutil.rmtree(full, ignore_errors=True)
+        # prune build dirs whose overlay no longer exists (bounds disk usage, never touches a live run)
+        for full in stale_dirs:
+            shutil.rmtree(full, ignore_errors=True)
         log("codegen %s: %d harnesses in %.1fs" % (patterns, len(out), time.time() - t0))
         return out
     finally:
